@@ -74,6 +74,10 @@ def run_check(pid, tier, seed, t0):
             for m in (getattr(reg[key], "modes", None) or modes):
                 tasks.append({"kind": "verify", "key": key, "case": case.name,
                               "mode": m})
+                for rg in reg[key].regions:
+                    if re.fullmatch(rg.get("cases", ".*"), case.name):
+                        tasks.append({"kind": "verify", "key": key, "case": case.name,
+                                      "mode": m, "region": rg["name"]})
     for ln in getattr(prop, "LEMMAS", []):
         lem = contracts.LEMMAS[ln]
         for m in (lem.modes or modes):
